@@ -284,13 +284,20 @@ func (r *c03Render) node(n *c03Node, lvl int) {
 	}
 }
 
-func c03Script(fns [][]*c03Node) string {
+func c03Script(fns [][]*c03Node, filler int) string {
 	r := &c03Render{}
 	r.sb.WriteString(sim.Prelude)
 	// later functions are defined first so that earlier ones can call them
 	for i := len(fns) - 1; i >= 0; i-- {
 		// dN counts the activations of fN (bounds its self-recursion); var first, so that the body can name itself
 		fmt.Fprintf(&r.sb, "d%[1]d := 0\nvar f%[1]d\nf%[1]d = func() {\n\td%[1]d++\n", i)
+		if i == 0 && filler > 0 {
+			// push the try statements of f0 beyond the first 64 KiB of its instructions (4-byte jump operands)
+			r.sb.WriteString("\tzf := 0\n")
+			for k := 0; k < filler; k++ {
+				r.sb.WriteString("\tzf = zf + 1\n")
+			}
+		}
 		r.block(fns[i], 1)
 		r.sb.WriteString("}\n")
 	}
@@ -485,7 +492,12 @@ func c03Run(rc *sim.RunCtx) {
 		fns[i] = append(fns[i], g.stmts(1+t.Draw(4), "plain", 0, false, i)...)
 	}
 	ws := sim.DrawWorldSpec(t, "w", 4, 3, 3, []sim.FaultKind{sim.FGoErr, sim.FUgoErr}, 3, 0)
-	src := c03Script(fns)
+	filler := 0
+	if t.Bool(1, 250) {
+		filler = 8200 + t.Draw(400)
+		rc.Probe("try-statements-beyond-64KiB")
+	}
+	src := c03Script(fns, filler)
 
 	// reference model
 	m := &c03Model{spec: ws, occ: map[int]int{}, chooseN: map[int]int{}, fns: fns, caught: map[int]c03Compl{}, depth: map[int]int{}}
@@ -527,7 +539,7 @@ func c03Run(rc *sim.RunCtx) {
 				rerr = fmt.Errorf("Go panic escaped from VM.Run: %v", r)
 			}
 		}()
-		ret, rerr, steps, capped = sim.RunCapped(vm, w.Globals, 200000)
+		ret, rerr, steps, capped = sim.RunCapped(vm, w.Globals, 400000)
 	}()
 	rc.Steps = steps
 	got := sim.MakeOutcome(ret, rerr, w.Hist)
